@@ -1017,6 +1017,11 @@ def defaults(fam, declname, overrides=None):
         else:
             pv.vals[f["name"]] = default_of_base(fam, f)
     for f in decl["fields"]:
-        if "describe" in f and f["name"] not in overrides:
+        if is_auto(f) and f["name"] not in overrides:
             pv.vals[f["name"]] = len(pv.vals[f["describe"]["of"]])
     return pv
+
+
+def is_auto(f):
+    d = f.get("describe")
+    return bool(d) and (d["k"] == "autolength" or (d["k"] == "alias" and d.get("impl") == "autolength"))
